@@ -295,6 +295,8 @@ HOSTILE_ARGS = [
     {"merr": "404=", "update": "3"}, {"terr": "404=07:00:00Z"},
     {"events": "ping", "ping__start": "-5", "ping__inband": "0"}, {"events": "ping", "ping__start": "-5", "ping__inband": "1"},
     {"events": "scte35", "scte35__start": "-1"}, {"events": "ping", "ping__start": "-5"},
+    {"verr": "503=2024-01-01T00:00:00+24:00"}, {"vcorrupt": "2024-01-01T00:00:00-25:00"},
+    {"start": "2024-01-01T00:00:00+24:00"}, {"aerr": "404=2024-01-01T00:00:00+23:59"},
 ]
 
 
